@@ -1,0 +1,30 @@
+//go:build verif
+
+package l1infotreesync
+
+import (
+	"context"
+
+	"github.com/agglayer/aggkit/sync"
+)
+
+// NewVerifC12L1InfoTreeSync builds the real L1InfoTreeSync facade around a real processor (real SQLite store on
+// dbPath, real l1info_leaf / verify_batches tables, real rollup exit tree) without driver or downloader:
+// blocks are fed by VerifC12ProcessBlock. Plain functions, so the method set of *L1InfoTreeSync is the product's.
+func NewVerifC12L1InfoTreeSync(dbPath string) (*L1InfoTreeSync, error) {
+	p, err := newProcessor(dbPath)
+	if err != nil {
+		return nil, err
+	}
+	return &L1InfoTreeSync{processor: p}, nil
+}
+
+// VerifC12ProcessBlock hands one block (Events are l1infotreesync.Event values) to the real processor.
+func VerifC12ProcessBlock(ctx context.Context, s *L1InfoTreeSync, b sync.Block) error {
+	return s.processor.ProcessBlock(ctx, b)
+}
+
+// VerifC12Close closes the store.
+func VerifC12Close(s *L1InfoTreeSync) error {
+	return s.processor.db.Close()
+}
